@@ -633,3 +633,105 @@ def check_scope(P, R, rule, fns, floor=20):
     R.floor(rule, floor, 'copy sinks in scope')
     R.note('%s idioms used: %s' % (rule, {k: v for k, v in sorted(used.items(), key=lambda kv: str(kv[0]))}))
     return n
+
+
+def fallback_strlcpy(P, R, rule):
+    """Every bounded copy in the daemon that is written as strlcpy(dst, src, sizeof dst) is only as bounded as the
+    strlcpy it reaches - and where libc has none (HAVE_STRLCPY undefined), that is the program's own.  Its writes are
+    checked against its own contract: writing L for the size it was called with, every memcpy writes at most L bytes
+    and the terminator is stored at an index below L.  Symbolic bounds: the size parameter is followed through its
+    decrements, the source length through the comparisons on the way to each write."""
+    from .model import sx as _sx, const_of as _c, is_var as _iv, walk as _walk
+    from . import rules as _rules
+    fs = [f for f in P.fns.values() if f.name == 'strlcpy' and not f.unit.startswith('tests/')]
+    if not fs:
+        R.ob(rule, True, P.need_fn('main'), 'the program defines no strlcpy of its own (libc\'s is used)', key='strlcpy:none', nontrivial=False)
+        R.floor(rule, 1)
+        return
+    n = 0
+    for f in fs:
+        if len(f.params) < 3:
+            raise AnalysisBroken('the program\'s strlcpy does not take (dst, src, size)')
+        dst, src, lenp = f.params[:3]
+        srclen = {t.ev['lhs']['name'] if t.ev['k'] == 'store' else t.ev.get('var') for t in f.sites()
+                  if t.ev['k'] in ('store', 'decl') and isinstance((t.ev.get('rhs') if t.ev['k'] == 'store' else t.ev.get('init')), dict)
+                  and (t.ev.get('rhs') if t.ev['k'] == 'store' else t.ev.get('init')).get('k') == 'callref' and (t.ev.get('rhs') if t.ev['k'] == 'store' else t.ev.get('init')).get('callee') == 'strlen'}
+        srclen.discard(None)
+
+        # state: (delta of the size parameter, upper bound of the source length as an offset from L or None)
+        def on_event(st, t):
+            d, ub = st
+            ev = t.ev
+            if ev['k'] == 'store' and _iv(ev.get('lhs'), lenp):
+                if ev.get('op') == '--':
+                    return (d - 1, ub)
+                if ev.get('op') == '++':
+                    return (d + 1, ub)
+                if ev.get('op') == '-=' and isinstance(_c(ev.get('rhs')), int):
+                    return (d - _c(ev['rhs']), ub)
+                return (None, ub)
+            return st
+
+        def on_edge(st, e):
+            d, ub = st
+            r = _rules.edge_rel(e)
+            if not r or d is None:
+                return st
+            def pre(e):
+                # `--len` inside the condition: the step has been applied (its store event precedes the branch), the value
+                # is the variable's
+                if isinstance(e, dict) and e.get('k') == 'un' and e.get('op') in ('--', '++') and not e.get('postfix') and _iv(e.get('e')):
+                    return e['e']
+                return e
+            a, b = _rules.linform(pre(r[0])), _rules.linform(pre(r[2]))
+            if a is None or b is None:
+                return st
+            # in_len (op) len + k
+            for x, y, op in ((a, b, r[1]), (b, a, {'<': '>', '<=': '>=', '>': '<', '>=': '<=', '==': '==', '!=': '!='}[r[1]])):
+                if len(x[0]) == 1 and list(x[0].values()) == [1] and list(x[0])[0] in srclen and set(y[0]) <= {lenp} and y[0].get(lenp, 0) in (0, 1):
+                    k = y[1] - x[1]
+                    base = d if y[0].get(lenp) else None
+                    if base is None:
+                        continue
+                    if op == '<':
+                        nb = base + k - 1
+                    elif op in ('<=', '=='):
+                        nb = base + k
+                    else:
+                        continue
+                    return (d, nb if ub is None else min(ub, nb))
+            return st
+        before, _, _, _ = f.forward((0, None), on_event, on_edge)
+
+        def bound(e, st):
+            """upper bound of e as an offset from L, or None"""
+            d, ub = st
+            lf = _rules.linform(e)
+            if lf is None or d is None:
+                return None
+            tot = lf[1]
+            for k_, v in lf[0].items():
+                if k_ == lenp and v == 1:
+                    tot += d
+                elif k_ in srclen and v == 1 and ub is not None:
+                    tot += ub
+                else:
+                    return None
+            # exactly one L-relative term
+            terms = [k_ for k_ in lf[0]]
+            if len(terms) != 1:
+                return None if terms else ('const', lf[1])
+            return tot
+        for t in f.sites():
+            if t.ev['k'] == 'call' and t.ev.get('callee') in ('memcpy', 'memmove', 'strncpy') and t.ev['args'] and _iv(t.ev['args'][0], dst):
+                for st in before.get(t.key, set()):
+                    b = bound(t.ev['args'][2], st)
+                    n += 1
+                    R.ob(rule, isinstance(b, int) and b <= 0, t, 'strlcpy copies at most the size it was given: %s(%s) writes at most L%+d bytes' % (t.ev['callee'], _sx(t.ev['args'][2]), b if isinstance(b, int) else 0) if isinstance(b, int)
+                         else 'strlcpy copies at most the size it was given: the length %s of its %s is not bounded in terms of that size' % (_sx(t.ev['args'][2]), t.ev['callee']), key='strlcpy:copy')
+            if t.ev['k'] == 'store' and (t.ev.get('lhs') or {}).get('k') == 'idx' and _iv(t.ev['lhs'].get('base'), dst):
+                for st in before.get(t.key, set()):
+                    b = bound(t.ev['lhs']['index'], st)
+                    n += 1
+                    R.ob(rule, isinstance(b, int) and b <= -1, t, 'strlcpy terminates inside the size it was given: the terminator goes to index %s' % ('L%+d' % b if isinstance(b, int) else _sx(t.ev['lhs']['index'])), key='strlcpy:terminator')
+    R.floor(rule, 2, 'writes of the program\'s own strlcpy')
